@@ -8,8 +8,8 @@ ET.register_namespace("sbe", SBE_NS)
 ET.register_namespace("xi", "http://www.w3.org/2001/XInclude")
 
 TOKENS = ["", "-1", "0", "1", "255", "256", "65535", "65536", "4294967296", "18446744073709551615", "18446744073709551616",
-          "08", "+1", " 1", "0x10", "1e3", "NaN", "abc", "n" * 70]
-TOKENS_QUICK = ["", "-1", "0", "256", "18446744073709551616", "08", "abc", "NaN"]
+          "08", "+1", " 1", "0x10", "1e3", "NaN", "abc", "n" * 70, "{", "x{y}", "{}", "%s%n"]
+TOKENS_QUICK = ["", "-1", "0", "256", "18446744073709551616", "08", "abc", "NaN", "x{y}"]
 TAGS = ["types", "type", "composite", "enum", "set", "ref", "validValue", "choice", "message", "field", "group", "data", "include",
         "messageSchema"]
 REF_ATTRS = ["type", "encodingType", "dimensionType", "valueRef", "headerType", "primitiveType"]
